@@ -51,7 +51,7 @@ static void w_setup(int cfg, int thorough)
         for (i = 0; i < NS; i++) { w_ops[w_nops++] = OP(O_SP_ALLOC, i, 0); w_ops[w_nops++] = OP(O_SP_ALLOC0, i, 0); w_ops[w_nops++] = OP(O_SP_RESET, i, 0); }
         w_ops[w_nops++] = OP(O_SP_ALLOC_HUGE, 0, 0); w_ops[w_nops++] = OP(O_SP_ALLOC_HUGE, 1, 0);
         for (i = 0; i < NS; i++) for (j = 0; j < NS; j++) if (i != j) w_ops[w_nops++] = OP(O_SP_SHARE, i, j);
-        for (i = 0; i < NS; i++) for (j = i + 1; j < NS; j++) w_ops[w_nops++] = OP(O_SP_SWAP, i, j);
+        for (i = 0; i < NS; i++) for (j = i; j < NS; j++) w_ops[w_nops++] = OP(O_SP_SWAP, i, j);       /* j == i: swapping a pointer with itself */
         for (w = 0; w < NW; w++) { for (i = 0; i < NS; i++) { w_ops[w_nops++] = OP(O_WP_FROM, w, i); w_ops[w_nops++] = OP(O_WP_LOCK, w, i); } w_ops[w_nops++] = OP(O_WP_RESET, w, 0); }
         w_ops[w_nops++] = OP(O_WP_SWAP, 0, 1); if (NW > 2) w_ops[w_nops++] = OP(O_WP_SWAP, 1, 2);
     } else {
